@@ -105,6 +105,8 @@ def track_step(t, op):
     tg = op[0]
     if tg == "add":
         return t.add_notes(content(op[1]), num(op[2]))
+    if tg == "add_raw":      # a plain Python list of Note objects, in the order given (not sorted as a NoteContainer would be)
+        return t.add_notes([to_py(i) for i in op[1]], num(op[2]))
     if tg == "plus":
         c = content(op[1])
         return t + c if c is not None else t.add_notes(None)
